@@ -243,6 +243,16 @@ func (g *gen) kernelMatrix(ops []string, cmp bool, modes []string) {
 							g.forceLit = l
 							g.binProgram(op, dt, kind, "fn", []int{2, 3}, path, path, mode, "contig")
 						}
+						if cmp && dt != "b" && path == "contig" {
+							// the one-element special cases of the engine glue: element -2 against -2 (tie) and 0
+							for _, l := range []string{"#k-2", "#k0"} {
+								if kind == "TT" && l != "#k0" {
+									continue
+								}
+								g.forceLit = l
+								g.binProgram(op, dt, kind, "fn", []int{1}, path, path, mode, "contig")
+							}
+						}
 						g.forceVset, g.forceLit = 0, ""
 					}
 				}
